@@ -38,7 +38,7 @@ theorem kindOf_fixed {t : Str}
 
 theorem rowFacts (c : CRow) (hf : nodeRowOk c = true) : RowFacts c := by
   simp only [nodeRowOk, Bool.or_eq_true] at hf
-  rcases hf with (hf | hf) | hf
+  rcases hf with ((hf | hf) | hf) | hf
   · simp only [plainActionRow, Bool.and_eq_true, Bool.not_eq_true', List.isEmpty_iff, decide_eq_true_eq] at hf
     obtain ⟨⟨⟨hsp, hu⟩, hnm⟩, _⟩ := hf
     obtain ⟨_, _, _, _, _, _, _, h8, h9, h10, h11, h12⟩ := not_special hsp
@@ -69,6 +69,15 @@ theorem rowFacts (c : CRow) (hf : nodeRowOk c = true) : RowFacts c := by
       · exact .inr (.inr (.inr (.inr (.inl h))))
       · exact .inr (.inr (.inr (.inr (.inr (.inl h)))))
       · exact .inr (.inr (.inr (.inr (.inr (.inr (.inl h))))))
+  · simp only [randomRow, Bool.and_eq_true, List.isEmpty_iff, decide_eq_true_eq] at hf
+    obtain ⟨⟨⟨ht, hu⟩, hnm⟩, _⟩ := hf
+    refine ⟨hu, hnm, ?_, ?_, ?_, ?_, ?_, ?_⟩
+    · rw [ht]; decide
+    · rw [ht]; decide
+    · rw [ht]; decide
+    · rw [ht]; decide
+    · rw [ht]; decide
+    · rw [ht]; exact .inr (.inr (.inr (.inr (.inr (.inr (.inr kindOf_random))))))
 
 /-- a row of the fragment goes straight to `newRow` -/
 theorem wp_parseRow_new (c : CRow) (hf : RowFacts c) (s : St) (Q : PUnit → St → Prop)
@@ -105,14 +114,14 @@ out-edge yet -/
 theorem rowNode_sim (c : CRow) (hf : nodeRowOk c = true) (edges : List Compile.Edge) (act : Option (Uid × Str))
     (hact : act.map (·.2) = c.row.action) (s : St) (hna : s.noArgs = RefFlow.noArgsTests) :
     wp (rowNode { c.row with edges := edges } act) s (fun n s' =>
-      (∃ k, Bump s s' k) ∧ ∀ M ns, NodeSim M ns n c []) := by
+      (∃ k, Bump s s' k) ∧ (∀ r, n.router = some (RouterM.rnd r) → r.cats = []) ∧ ∀ M ns, NodeSim M ns n c []) := by
   simp only [nodeRowOk, Bool.or_eq_true] at hf
-  rcases hf with (hf | hf) | hf
+  rcases hf with ((hf | hf) | hf) | hf
   · simp only [plainActionRow, Bool.and_eq_true, Bool.not_eq_true', List.isEmpty_iff, decide_eq_true_eq] at hf
     obtain ⟨⟨⟨hsp, _⟩, _⟩, _⟩ := hf
     refine wp_mono (rowNode_plain _ act s hsp) ?_
     intro n s' ⟨hb, hnk, hnr, hna, hnd⟩
-    refine ⟨hb, fun M ns => .plain (kindOf_action hsp) ⟨hnk, hnr, ?_, ?_⟩⟩
+    refine ⟨hb, (fun r hr => by rw [hnr] at hr; cases hr), fun M ns => .plain (kindOf_action hsp) ⟨hnk, hnr, ?_, ?_⟩⟩
     · have e2 : act.toList.map (·.2) = (act.map (·.2)).toList := by cases act <;> rfl
       rw [hna, e2, hact]
     · rw [hnd]; rfl
@@ -121,7 +130,7 @@ theorem rowNode_sim (c : CRow) (hf : nodeRowOk c = true) (edges : List Compile.E
     have ht := switch_type hsw
     refine wp_mono (rowNode_switch _ act s ht) ?_
     intro n s' ⟨hb, hnk, hna, sw, hrt, hfr⟩
-    refine ⟨hb, fun M ns => .sw sw (kindOf_switch ht) ⟨hnk, hna, hrt, hfr.operand, hfr.rname, ?_, hfr.nrSome, ?_, ?_, ?_, ?_, ?_⟩⟩
+    refine ⟨hb, (fun r hr => by rw [hrt] at hr; cases hr), fun M ns => .sw sw (kindOf_switch ht) ⟨hnk, hna, hrt, hfr.operand, hfr.rname, ?_, hfr.nrSome, ?_, ?_, ?_, ?_, ?_⟩⟩
     · rw [hfr.wait]; rfl
     · rw [hfr.cases]; rfl
     · rw [hfr.cases, hfr.cats]; rfl
@@ -138,10 +147,17 @@ theorem rowNode_sim (c : CRow) (hf : nodeRowOk c = true) (edges : List Compile.E
       · exact rowNode_hook _ act s hna h
     refine wp_mono key ?_
     intro n s' ⟨hb, sw, sc, hfr⟩
-    refine ⟨hb, fun M ns => .fix sw sc (kindOf_fixed ht) ⟨hfr.kind, hfr.acts, hfr.router, hfr.operand, hfr.rname,
+    refine ⟨hb, (fun r hr => by rw [hfr.router] at hr; cases hr), fun M ns => .fix sw sc (kindOf_fixed ht) ⟨hfr.kind, hfr.acts, hfr.router, hfr.operand, hfr.rname,
       hfr.wait, hfr.noResp, hfr.cats, hfr.sname, hfr.uidne, hfr.cases, ?_, ?_⟩⟩
     · rw [hfr.succ]; rfl
     · rw [hfr.dflt]; rfl
+  · simp only [randomRow, Bool.and_eq_true, List.isEmpty_iff, decide_eq_true_eq] at hf
+    obtain ⟨⟨⟨ht, _⟩, _⟩, _⟩ := hf
+    refine wp_mono (rowNode_random _ act s ht) ?_
+    intro n s' ⟨hb, hnk, hna, hrt⟩
+    refine ⟨hb, (fun r hr => by rw [hrt] at hr; injection hr with hr; injection hr with hr; rw [← hr]), fun M ns =>
+      .rnd _ (by rw [ht]; exact kindOf_random) ⟨hnk, hna, hrt, rfl, List.nodup_nil, List.nodup_nil, List.Forall₂.nil, ?_⟩⟩
+    intro cat hcat; cases hcat
 
 /-! ### changing the ghost map where no target lives -/
 
@@ -199,6 +215,15 @@ theorem NodeSim.congrM {M M' : Maps} {ns : Array NodeM} {n : NodeM} {c : CRow} {
     exact .fix r sc hk ⟨hp.kind, hp.acts, hp.router, hp.operand, hp.rname, hp.wait, hp.noResp, hp.cats, hp.sname,
       hp.uidne, hp.cases, hp.succ.congrM (hlast _ (hfil _ _ (fun e he => he))),
       hp.dflt.congrM (hlast _ (hfil _ _ (fun e he => he)))⟩
+  | rnd r hk hp =>
+    refine .rnd r hk ⟨hp.kind, hp.acts, hp.router, hp.rname, hp.uids, hp.names, ?_, hp.gen⟩
+    refine forall2_imp_mem hp.rel ?_
+    intro cat b hb hd
+    refine ⟨hd.1.congrM ?_, hd.2⟩
+    intro k hk'
+    simp only [Option.some.injEq] at hk'
+    obtain ⟨e, he, het⟩ := buckets_tgt es b hb
+    exact h e he k (by rw [het]; exact hk')
 
 theorem isNodeRow_of_ok (c : CRow) (hf : nodeRowOk c = true) : isNodeRow c = true := by
   unfold isNodeRow
@@ -216,7 +241,7 @@ theorem Rel.skip {rows : List CRow} {M : Maps} {k : Nat} {s : St} {st : P1} {c :
     (h : Rel rows M false k s st) (hc : rows[k]? = some c) (hn : isNodeRow c = false) :
     Rel rows M false (k + 1) s st := by
   have hg : gOf rows (k + 1) = gOf rows k := by rw [gOf_succ rows k c hc, hn]; simp
-  refine ⟨by rw [hg]; exact h.gsize, by rw [hg]; exact h.root, ?_, h.stack, h.ids, ?_, ?_, ?_, ?_, h.args, ?_, ?_, h.noR⟩
+  refine ⟨by rw [hg]; exact h.gsize, by rw [hg]; exact h.root, ?_, h.stack, h.ids, ?_, ?_, ?_, ?_, h.args, ?_, ?_, h.rfresh, h.noR⟩
   · intro j c' hj hc' hn'
     have : j < k := by
       rcases Nat.lt_succ_iff_lt_or_eq.mp hj with h1 | h1
@@ -286,7 +311,7 @@ theorem node_row_sim (rows : List CRow) (outF : List OutEdge) (g : Good rows out
     refine wp_mono (rowAction_exact _ s) ?_
     intro act s1 ⟨⟨k1, hb1⟩, hact1⟩; subst hb1
     refine wp_mono (rowNode_sim c hf _ act hact1 _ h.args) ?_
-    intro n s2 ⟨⟨k2, hb2⟩, hnsim⟩; subst hb2
+    intro n s2 ⟨⟨k2, hb2⟩, hnrnd, hnsim⟩; subst hb2
     dsimp only
     -- the ghost map learns where the node of row `k` lives
     obtain ⟨M', hM'⟩ : ∃ M' : Maps, M' = { M with nOf := fun x => if x = k then s.nodes.size else M.nOf x } := ⟨_, rfl⟩
@@ -310,7 +335,7 @@ theorem node_row_sim (rows : List CRow) (outF : List OutEdge) (g : Good rows out
       · exact absurd h1.2 hjk
     -- the arena with the pending node
     have r1 : Rel rows M' true k { s with nodes := s.nodes.push n, next := s.next + k1 + k2 } st := by
-      refine ⟨h.gsize, h.root, ?_, h.stack, h.ids, h.idok, h.prev, h.srcok, ?_, h.args, ?_, ?_, by rw [hMr]; exact h.noR⟩
+      refine ⟨h.gsize, h.root, ?_, h.stack, h.ids, h.idok, h.prev, h.srcok, ?_, h.args, ?_, ?_, ?_, by rw [hMr]; exact h.noR⟩
       · intro j c' hj hc' hn'
         rw [hMo j (by omega), hMr]; exact h.grp j c' hj hc' hn'
       · intro e he t ht
@@ -345,6 +370,13 @@ theorem node_row_sim (rows : List CRow) (outF : List OutEdge) (g : Good rows out
             omega
           · rw [hMo j h1, hMo j' h2] at he
             exact h.inj j c1 j' c2 (hvalid j c1 hv1 h1) (hvalid j' c2 hv2 h2) he
+      · intro i m r hm hr cat hcat
+        simp only [Array.getElem?_push] at hm
+        split at hm
+        · injection hm with hm; subst hm
+          rw [hnrnd r hr] at hcat; cases hcat
+        · obtain ⟨k0, hk0, e⟩ := h.rfresh i m r hm hr cat hcat
+          exact ⟨k0, by show k0 < s.next + k1 + k2; omega, e⟩
     have hdk : DestIs M' ({ s with nodes := s.nodes.push n, next := s.next + k1 + k2 } : St).nodes (.node n.uid)
         (some (Target.row k)) := ⟨n, by rw [hMk]; simp, rfl⟩
     refine wp_mono (edges_sim rows outF g M' true k (.node n.uid) (Target.row k) _ _ st st1 r1 hdk
@@ -372,7 +404,7 @@ theorem node_row_sim (rows : List CRow) (outF : List OutEdge) (g : Good rows out
                     rowIds := rowIds, names := names }
           { st1 with prev := some k, ids := ids } := by
       intro rowIds ids names hids hlt
-      refine ⟨by simp [hsz, hgk], ?_, ?_, r3.stack, hids, hlt, ?_, ?_, ?_, r3.args, ?_, ?_, r3.noR⟩
+      refine ⟨by simp [hsz, hgk], ?_, ?_, r3.stack, hids, hlt, ?_, ?_, ?_, r3.args, ?_, ?_, r3.rfresh, r3.noR⟩
       · simp only [Array.getElem?_setIfInBounds, Array.size_push]
         have e1 : gOf rows (k + 1) - 1 = (gOf rows k - 1) + 1 := by omega
         rw [e1, List.range'_concat]
